@@ -30,7 +30,7 @@ Each change must be realistic - the kind of slip a maintainer makes in a refacto
 
 {previous}
 Also avoid these mechanisms, which earlier rounds used often: dropping a keyword argument at a call site; replacing `continue` by `break`; removing a `copy(...)` of the file metadata; `x = x or default` reordering; `is True` tests; turning an `if` into an `elif`; moving `fmd.num_rows = ...` under a condition; moving or removing `truncate()`; changing which length bounds a decoder call. Prefer places that look unremarkable: helper functions, conversions between units or types, bookkeeping of counts and offsets, the less-travelled branch of an if/else, error paths, option plumbing between layers.
-
+{extra}
 For each change n in 1..3 write these files:
   {wt}/out/<n>/patch.diff  - output of `git diff` against HEAD (must apply with `git apply` from the worktree root)
   {wt}/out/<n>/demo.py     - a standalone script that exits 0 and prints PASS on the unchanged tree, and exits non-zero and prints FAIL (with what was observed) when the patch is applied; it must use temp dirs and clean up; it must be deterministic
@@ -41,6 +41,10 @@ Verify each change yourself: apply the patch, run demo.py (must FAIL), run the f
 Finish with a short report: for each change one line (file:function, what, how it manifests) and whether verification succeeded. If you notice that the UNCHANGED tree already violates the property for some input, say so in the report (one line each) but do not use it as a seed.'''
 
 HERE = os.path.dirname(os.path.dirname(os.path.abspath(__file__)))
+# round 6: ask for refactor-shaped changes as well (set EXTRA=refactor)
+EXTRAS = {'refactor': '''
+At least ONE of your three changes must have the shape of a small refactor rather than a one-token slip: rewriting a loop as a comprehension (or back), extracting a few lines into a helper, merging two branches that look alike, replacing an idiom by an equivalent-looking one (a different numpy/pandas call, a different way to test for None / emptiness, integer vs true division, a different slicing form), hoisting a computation out of a loop, or reordering independent-looking statements - where the result is subtly NOT equivalent for some inputs. It must still read like an honest clean-up.
+'''}
 
 
 def main():
@@ -66,7 +70,8 @@ def main():
                         'mechanisms that the property depends on:\n' + '\n'.join(prev) + '\n')
         p = props[pid]
         open(os.path.join(root, 'prompts', pid + '.txt'), 'w').write(T.format(
-            wt=wt, title=p['title'], statement=p['statement'], quant=p['quantifier']['text'], pid=pid, previous=previous))
+            wt=wt, title=p['title'], statement=p['statement'], quant=p['quantifier']['text'], pid=pid, previous=previous,
+            extra=EXTRAS.get(os.environ.get('EXTRA', ''), '')))
     print('prepared', len(pids), 'worktrees and prompts under', root)
 
 
